@@ -305,6 +305,26 @@ theorem ts_hi_byte (w : Nat) :
 theorem ts_lo_byte (w : Nat) : u8 (i8 (u8 (w : Int))) = ((w % 256 : Nat) : Int) := by
   rw [u8_i8, u8_u8, TransBits.u8_nat]
 
+/-- the shape of `rdsparser_parser_update_string`, whichever way the C writes the two threshold tests (one `if (a && b)`
+with `<=`, or guard clauses `if (thr < e) return false;`): gate, then the two bytes of the block to `string_update` -/
+theorem ts_pus_shape (u : Bool) (ctx : C_librdsparser) (s : CStr) (text blk : Int) (data errors : List Int) (pos : Int) :
+    c_rdsparser_parser_update_string u ctx s text blk data errors pos =
+      if decide (errors.getD 1 0 ≤ (getL ctx.correction text).getD 0 0) &&
+          decide (getI errors blk ≤ (getL ctx.correction text).getD 1 0) then
+        ((c_rdsparser_string_update u s
+            (((List.replicate 2 (0 : Int)).set 0 (i8 (shr (getI data blk) 8))).set 1 (i8 (u8 (getI data blk))))
+            (errors.getD 1 0) (getI errors blk) pos (getI ctx.progressive text) 1).1,
+         (c_rdsparser_string_update u s
+            (((List.replicate 2 (0 : Int)).set 0 (i8 (shr (getI data blk) 8))).set 1 (i8 (u8 (getI data blk))))
+            (errors.getD 1 0) (getI errors blk) pos (getI ctx.progressive text) 1).2)
+      else ((0 : Int), s) := by
+  unfold c_rdsparser_parser_update_string
+  simp only []
+  repeat' split
+  all_goals first
+    | rfl
+    | (simp only [Bool.and_eq_true, decide_eq_true_eq, Bool.and_eq_false_iff, decide_eq_false_iff_not, not_and, Int.not_le, Int.not_lt] at *; omega)
+
 theorem ts_parser_update (u : Bool) (ctx : C_librdsparser) (hI : CInv ctx) (s : CStr) (cap : Nat)
     (hs : StrOk s cap) (g : Group) (text : Nat) (ht : text < 3) (blk w ex pos : Nat)
     (hdat : getI (dataOf g) (blk : Int) = (w : Int)) (herrx : getI (errorsOf g) (blk : Int) = (ex : Int))
@@ -315,7 +335,8 @@ theorem ts_parser_update (u : Bool) (ctx : C_librdsparser) (hI : CInv ctx) (s : 
   obtain ⟨i0, i1⟩ := ts_corr_range ctx hI text 0 ht (by omega)
   obtain ⟨d0, d1⟩ := ts_corr_range ctx hI text 1 ht (by omega)
   have hebC : (errorsOf g).getD 1 0 = (g.eb : Int) := rfl
-  unfold c_rdsparser_parser_update_string parserUpdate
+  rw [ts_pus_shape]
+  unfold parserUpdate
   simp only [hebC, herrx, hdat, ts_corr_info ctx text ht, ts_corr_data ctx text ht]
   generalize (getL ctx.correction (text : Int)).getD 0 0 = ci at i0 i1 ⊢
   generalize (getL ctx.correction (text : Int)).getD 1 0 = cd at d0 d1 ⊢
